@@ -83,7 +83,8 @@ type Knobs struct {
 	Authenticator  string `json:"authn,omitempty"` // "", mockFailure, verifPass
 	SegNum         int    `json:"segnum"`          // read segmentation probability SegNum/SegDen
 	SegDen         int    `json:"segden"`
-	AcceptErrs     int    `json:"accepterrs,omitempty"`
+	AcceptErrs     int    `json:"accepterrs,omitempty"`   // temporary errors of the first Accept calls that have a connection waiting
+	AcceptErrNum   int    `json:"accepterrnum,omitempty"` // later Accept calls fail with probability AcceptErrNum/16 (fault stream)
 	CloseServer    bool   `json:"closeserver,omitempty"` // director calls Server.Close while clients are still connected
 }
 
